@@ -230,9 +230,21 @@ Definition reset_cache1 (pk : option nat) (c : cstate) (i : nat) : cstate :=
        (keys c ++ [None]) (memos c ++ [[]]).
 Fixpoint reset_cache_list (pk : option nat) (c : cstate) (l : list nat) : cstate :=
   match l with [] => c | i :: t => reset_cache_list pk (reset_cache1 pk c i) t end.
-(* class-dispatched reset_cache: MultiStream also resets every view in _streams *)
+(* every object below [i] in the _streams tree (a phase view that was itself turned into a MultiStream has views) *)
+Fixpoint sub_targets (fuel : nat) (s : state) (i : nat) : list nat :=
+  match fuel with
+  | O => []
+  | S f => if is_multi s i
+           then flat_map (fun v => v :: sub_targets f s v) (map snd (o_views (obj_of s i)))
+           else []
+  end.
+(* class-dispatched reset_cache: MultiStream.reset_cache also calls reset_cache() on every view in _streams, which
+   recurses when the view is a MultiStream.  [pk = Some p] (_reset_thermo) replaces the package of the object and of
+   its direct views only.  A view is always a younger object than its owner, so the number of objects bounds the depth. *)
 Definition reset_cache (pk : option nat) (s : state) (c : cstate) (i : nat) : cstate :=
-  reset_cache_list pk c (i :: (if is_multi s i then map snd (o_views (obj_of s i)) else [])).
+  let direct := if is_multi s i then map snd (o_views (obj_of s i)) else [] in
+  reset_cache_list None (reset_cache_list pk c (i :: direct))
+                   (flat_map (sub_targets (length (objs s)) s) direct).
 (* a new object with fresh key / memo *)
 Definition new_cobj_fresh (c : cstate) (pkg : nat) : cstate :=
   mkcs (cobjs c ++ [mkc (length (keys c)) (length (memos c)) pkg]) (keys c ++ [None]) (memos c ++ [[]]).
@@ -519,7 +531,8 @@ Inductive op :=
 | OSetPhases (i : nat) (ps : list phase)
 | OResetCache (i : nat)
 | OSetPkg (i : nat) (pkg : nat)
-| ONop.
+| ONop
+| OSetHS (i : nat) (zero : bool) (Tnew : Q).   (* s.H = v / s.S = v: zero = (v == 0); Tnew = what the T solver returns *)
 
 Inductive obs := BOk | BErr (e : err) | BVal (r : rd) | BIdx (n : nat) | BVec (v : vec).
 
@@ -540,6 +553,7 @@ Fixpoint read_all (w : world) (l : list nat) : world :=
 Definition op_objs (o : op) : list nat :=
   match o with
   | ONew _ _ _ _ _ | ONop => []
+  | OSetHS i _ _ => [i]
   | ORead i _ _ _ | ORVol i | OSetT i _ | OSetP i _ | OSetPhase i _ | OSetFlow i _ _ _ | OScale i _ | OFmol i _ | OEmpty i
   | OProxy i | OFlowProxy i | OCopy i | OUnlink i | OView i _ | OSetPhases i _ | OResetCache i | OSetPkg i _ => [i]
   | OLink i j _ _ _ | OCopyLike i j | OCopyFlow i j | OCopyTC i j | OCopyPhase i j | OMix1 i j => [i; j]
@@ -642,6 +656,9 @@ Definition step_valid (w : world) (o : op) : world * obs :=
          package; no read happens in between, so package and fresh memo are installed together per object *)
       (mkw (reset_chem (ensure_views s i) i) (reset_cache (Some pkg) s c i), BOk)
   | ONop => (w, BOk)
+  | OSetHS i zero Tnew =>
+      (* H / S setter: `if not v and self.isempty(): return`; otherwise self.T = mixture.(x)solve_T_at_HP/SP(...) *)
+      lift w (if zero && isempty s (imol_of s (o_imol (obj_of s i))) then ok s else set_T s i Tnew)
   end.
 
 (* a Python reference always denotes an existing object: operations naming an index outside the table are rejected *)
